@@ -13,6 +13,7 @@ def decide(ctx, spec_module, cases, trace_file, failed, validated, level_note, r
            nontrivial=None, exhaustive=False, extra_cov=None, harness_bin=None, samples_from=None):
     """cases: list of case dicts (with id). failed: {id: [reasons]} from V."""
     prop = ctx.prop
+    model_drift = sum(1 for why in failed.values() if any(r.startswith("MODEL:") for r in why))
     failed = {i: [r for r in why if not r.startswith("INFO:")] for i, why in failed.items()}
     failed = {i: w for i, w in failed.items() if w}
     infra = [(i, r) for i, why in failed.items() for r in why if r.startswith("INFRA:")]
@@ -116,6 +117,7 @@ def decide(ctx, spec_module, cases, trace_file, failed, validated, level_note, r
         trace_spec=spec_module + ".tla",
         rejected_by_spec=len(mine), reproduced=len(confirmed),
         known_findings_hit={k: len(set(v)) for k, v in hits.items()},
+        impl_model_drift_cases=model_drift,
     )
     if extra_cov:
         cov.update(extra_cov)
